@@ -594,7 +594,9 @@ pub const RUST_KW_FIELDS: &[&str] = &[
 ];
 pub const RAW_FORBIDDEN_FIELDS: &[&str] = &["self", "Self", "super", "crate"];
 pub const ORD_NAMES: &[&str] = &["Foo", "Bar", "State", "T1", "Ping", "GetInfo", "X", "LongerTypeName9", "Aa", "Bb", "Cc", "Dd", "Ee", "GetID", "ReadIO", "HTTPServer", "A", "ABC"];
-pub const KW_NAMES: &[&str] = &["Type", "Move", "Match", "Fn", "Self", "Box", "Option", "Vec", "String", "Result", "Error", "Struct", "Impl", "Loop", "Mod", "Use", "Async", "Dyn", "Ok", "Some"];
+pub const KW_NAMES: &[&str] = &["Type", "Move", "Match", "Fn", "Self", "Box", "Option", "Vec", "String", "Result", "Error", "Struct", "Impl", "Loop", "Mod", "Use", "Async", "Dyn", "Ok", "Some",
+    // reserved for future use, and the rest of the strict keywords that may be written raw
+    "Abstract", "Become", "Do", "Final", "Macro", "Override", "Priv", "Try", "Typeof", "Unsized", "Virtual", "Yield", "Gen", "Static", "Unsafe", "Where", "While", "As", "Break", "Const", "Continue", "Else", "Enum", "Extern", "False", "For", "If", "In", "Let", "Mut", "Pub", "Ref", "Return", "Trait", "True", "Await"];
 pub const IFACE_NAMES: &[&str] = &["org.example.test", "a.b", "com.example-x.y9", "io.A.b-c", "org.varlink.x", "xn--lgbbat1ad8j.example.algeria", "a--1.b--1.c--1", "Com.Example.UPPER", "a.0.0"];
 
 #[derive(Clone, Copy, Debug)]
